@@ -412,6 +412,10 @@ func (w *brWorld) history(nops int) {
 				continue
 			}
 			nd := 1 + r.Intn(3)
+			forced := false
+			if forceDep != nil {
+				nd = 1 // the matured coinbase deposit on its own, as mined
+			}
 			var ds []*bitcointypes.Deposit
 			var dsCoq []string
 			heights := map[uint64]bool{}
@@ -420,7 +424,7 @@ func (w *brWorld) history(nops int) {
 				d := minedDeps[r.Intn(len(minedDeps))]
 				if i == 0 && forceDep != nil {
 					d, forceDep = forceDep, nil
-					w.st.Count("matured-coinbase-deposit-submitted")
+					forced = true
 				}
 				if i > 0 && r.Chance(25) {
 					d = picked[0] // duplicate inside the batch
@@ -435,7 +439,11 @@ func (w *brWorld) history(nops int) {
 				vout := d.vout
 				version := d.version
 				depth := len(proof) / 32
-				switch r.Intn(40) {
+				sel := r.Intn(40)
+				if forced && r.Chance(70) {
+					sel = 39 // presented exactly as mined
+				}
+				switch sel {
 				case 0:
 					idx = uint32(d.index) + 1<<uint(depth) // aliased position
 				case 1:
@@ -459,7 +467,7 @@ func (w *brWorld) history(nops int) {
 						idx = 1 << uint(depth) // coinbase presented elsewhere
 					}
 				}
-				if depth == 0 && r.Chance(35) {
+				if depth == 0 && r.Chance(35) && !(forced && sel == 39) {
 					idx = uint32(1 + r.Intn(3)) // the only transaction of its block, presented elsewhere (empty path)
 					w.st.Count("single-tx-block-deposit-at-other-position")
 				}
@@ -506,6 +514,9 @@ func (w *brWorld) history(nops int) {
 			cls, _ := w.e.Tx(func(c sdk.Context) error { _, err := srv.NewDeposits(c, msg); return err })
 			w.addOp(fmt.Sprintf("(BDeposits %s %s %s)", propCoq, cList(hdrCoq), cList(dsCoq)), cls, nil, lkOpRec{Kind: "deposits", Args: map[string]any{"n": len(ds), "proposer": prop}})
 			w.sig.WriteString(fmt.Sprintf("D%d%d", len(ds), cls))
+			if forced {
+				w.st.Count(fmt.Sprintf("matured-coinbase-deposit-submitted:class=%d", cls))
+			}
 			w.monitorDeposits(cls, before, ds, hdrs, prop)
 		// ------------------------------------------------ withdrawals: user requests
 		case choice < 46:
